@@ -1,47 +1,56 @@
 (* C09 driver.
-   in :  trace <TAB> fx(0|1) <TAB> pid,kind(S|E),root(- or pid),ntry;... <TAB> pid:choice,pid:choice,...
+   in :  trace <TAB> fx(0|1) <TAB> fr(0|1) <TAB> nstacks <TAB> pid,kind(S|E),root(- or pid),ntry,path(k.k.k);...
+               <TAB> pid:choice,pid:choice,...
    out:  ok <TAB> state;state;...      one state per point of the schedule, the start state first
-         state = D(0|1)|pid,pid,...|pid:LOC:tries,...|oracle(0|1)      files in creation order, newest first
+         state = dirs|files|pid:LOC:try:nlocked:cur,...|oracle(0|1)
+                 dirs: one 0/1 per stack; files: per stack pid,pid,... (creation order, newest first), stacks
+                 separated by /
          err <TAB> kind *)
 let loc_name (l : loc) : string =
   match l with
   | LMkdir -> "LMkdir" | LListAll -> "LListAll" | LListAll2 -> "LListAll2" | LExists -> "LExists"
   | LScanX -> "LScanX" | LScanX2 -> "LScanX2" | LCreate -> "LCreate" | LValidate -> "LValidate"
   | LHeld -> "LHeld" | LHeldNoLock -> "LHeldNoLock"
-  | LGive (b, g) ->
-    (if b then "LBack" else "LGive") ^
+  | LGive (m, g) ->
+    (match m with GRelease -> "LGive" | GBackoff -> "LBack" | GUnwind c -> if c then "LUnwC" else "LUnwF") ^
     (match g with GIsdir -> "Isdir" | GExistsF -> "ExistsF" | GRemove -> "Remove" | GCount -> "Count"
                 | GRmdir -> "Rmdir")
   | LDone -> "LDone" | LFailed -> "LFailed" | LCrashed -> "LCrashed"
 
+let nat_s (s : string) : nat = nat_of_int (int_of_string s)
+
 let dec_proc (s : string) =
   match String.split_on_char ',' s with
-  | [p; k; r; n] ->
+  | [p; k; r; n; path] ->
     let kind = (match k with "S" -> Sh | "E" -> Ex | _ -> failwith "bad kind") in
-    let root = if r = "-" then None else Some (nat_of_int (int_of_string r)) in
-    (nat_of_int (int_of_string p), ((kind, root), nat_of_int (int_of_string n)))
+    let root = if r = "-" then None else Some (nat_s r) in
+    let path = List.map nat_s (split_sep '.' path) in
+    (nat_s p, (((kind, root), nat_s n), path))
   | _ -> failwith "bad proc"
 
 let dec_step (s : string) =
   match String.split_on_char ':' s with
-  | [p; c] -> (nat_of_int (int_of_string p), nat_of_int (int_of_string c))
-  | [p] -> (nat_of_int (int_of_string p), O)
+  | [p; c] -> (nat_s p, nat_s c)
+  | [p] -> (nat_s p, O)
   | _ -> failwith "bad step"
 
-let show_state (((d, fs), ps), ok) : string =
+let ints (l : nat list) : string = String.concat "," (List.map (fun p -> string_of_int (int_of_nat p)) l)
+
+let show_state ((stacks, ps), ok) : string =
   String.concat "|"
-    [ field_of_bool d;
-      String.concat "," (List.map (fun p -> string_of_int (int_of_nat p)) fs);
-      String.concat "," (List.map (fun ((p, l), i) ->
-        Printf.sprintf "%d:%s:%d" (int_of_nat p) (loc_name l) (int_of_nat i)) ps);
+    [ String.concat "" (List.map (fun (d, _) -> field_of_bool d) stacks);
+      String.concat "/" (List.map (fun (_, fs) -> ints fs) stacks);
+      String.concat "," (List.map (fun (p, lo) ->
+        Printf.sprintf "%d:%s:%d:%d:%d" (int_of_nat p) (loc_name lo.lpc) (int_of_nat lo.ltry)
+          (int_of_nat lo.lnl) (int_of_nat lo.lcur)) ps);
       field_of_bool ok ]
 
 let handle (f : string array) : string =
   match f.(0) with
   | "trace" ->
-    let procs = List.map dec_proc (split_sep ';' f.(2)) in
-    let sched = List.map dec_step (split_sep ',' f.(3)) in
-    (match trace_view (bool_of_field f.(1)) procs sched with
+    let procs = List.map dec_proc (split_sep ';' f.(4)) in
+    let sched = List.map dec_step (split_sep ',' f.(5)) in
+    (match trace_view (bool_of_field f.(1)) (bool_of_field f.(2)) procs (nat_s f.(3)) sched with
      | Ok states -> "ok\t" ^ String.concat ";" (List.map show_state states)
      | Err k -> "err\t" ^ err_name k)
   | _ -> failwith "unknown op"
